@@ -183,6 +183,21 @@ def build(app):
         write_some(app, m, 200)
         return data
 
+    @app.route('/charset/<m>')
+    def charset(m):
+        # text in a charset chosen by the handler; the framework encodes it (per piece, for a generator)
+        spec = cur()
+        note('arg', m)
+        app.response.content_type = 'text/plain; charset=' + spec['cs']
+        note('charset', app.response.charset)
+        if spec.get('as_gen'):
+            def pieces():
+                yield 'caf\xe9-'
+                note('charset2', app.response.charset)
+                yield m + '-\xfc\xdf'
+            return pieces()
+        return 'caf\xe9-' + m + '-\xfc\xdf'
+
     @app.route('/busy/<m>')
     def busy(m):
         # a non-standard status code given in string form with a request-specific reason phrase
